@@ -16,6 +16,8 @@ const preludeStd = `(declare-fun lower (B) B)
 (declare-fun upper (B) B)
 (declare-fun trim (B) B)
 (declare-fun repeat (B Int) B)
+(declare-fun joinN ((Array Int NB) Int Int B) B)
+(assert (forall ((a (Array Int NB)) (o Int) (n Int) (k B) (j Int) (v NB)) (! (=> (or (< j o) (>= j (+ o n))) (= (joinN (store a j v) o n k) (joinN a o n k))) :pattern ((joinN (store a j v) o n k)))))
 (declare-fun splitS (Int) B)
 (declare-fun splitSep (Int) B)
 (declare-fun splitN (Int) Int)
@@ -125,6 +127,14 @@ func (f *frame) stdlib(i *ssa.Call, full string, args []T, st *State, pc string)
 		g.s.assumeUnder(pc, eq("(blen "+r.S+")", "(* (blen "+v(0)+") "+args[1].S+")"))
 		g.s.assumeUnder(pc, imp(eq(v(0), "(chr 32)"), eq(r.S, "(spaces "+args[1].S+")")))
 		return []T{{"(mk false " + r.S + ")", "NB"}}, pc, true
+	case "strings.Join":
+		// T-STD: the elements joined by the separator (joinN, defined by unfolding)
+		sl := args[0]
+		h := g.elemHeapOf(types.Typ[types.String])
+		arr := g.s.def("arr", T{g.readHeap(st, h, "(ptr "+sl.S+")"), "(Array Int NB)"}).S
+		o, n := "(off "+sl.S+")", "(len_ "+sl.S+")"
+		g.joinUnfold(arr, o, n, v(1))
+		return nb(app("joinN", arr, o, n, v(1))), pc, true
 	case "strings.Split":
 		// T-STD: a fresh []string that is a function of the text and the separator only; splitS /
 		// splitSep name the two arguments a split list was produced from (its elements are not
